@@ -310,9 +310,16 @@ def linearize_measure_contents(part, start, end, state):
     contents = []
 
     for i in range(1, len(splits)):
-        contents.extend(
-            linearize_segment_contents(part, splits[i - 1], splits[i], state)
+        segment_contents, pos = linearize_segment_contents(
+            part, splits[i - 1], splits[i], state
         )
+        contents.extend(segment_contents)
+        if i < len(splits) - 1 and pos != splits[i].t:
+            # the next segment (with other divisions) starts at splits[i]: move
+            # there if the voice written last ends earlier or later
+            contents.extend(
+                e for _, _, e in forward_backup_if_needed(splits[i].t, pos)[0]
+            )
 
     return contents
 
@@ -494,9 +501,9 @@ def linearize_segment_contents(part, start, end, state):
 
     other_e = harmony_e + attributes_e + directions_e + barline_e + prints_e
 
-    contents = merge_measure_contents(voices_e, other_e, start.t)
+    contents, pos = merge_measure_contents(voices_e, other_e, start.t)
 
-    return contents
+    return contents, pos
 
 
 def do_prints(part, start, end):
@@ -718,7 +725,7 @@ def merge_measure_contents(notes, other, measure_start):
         if elements:
             pos = elements[-1][0] + (elements[-1][1] or 0)
 
-    return result
+    return result, pos
 
 
 def do_directions(part, start, end, counter):
